@@ -102,7 +102,16 @@ func sameType(x, y types.Type) bool {
 	if x == nil {
 		return y == nil
 	}
-	return y != nil && types.Identical(x, y)
+	if y == nil {
+		return false
+	}
+	// executor-native types are not go/types types: identical only to themselves
+	_, nx := x.(*nativeType)
+	_, ny := y.(*nativeType)
+	if nx || ny {
+		return x == y
+	}
+	return types.Identical(x, y)
 }
 
 func (x iface) eq(t types.Type, _y interface{}) bool {
